@@ -59,6 +59,11 @@ def harnesses(ctx, tier):
     hs.append(Harness(name="H4_transition_encoding", src="c05/ac_leaf.c", defines=["-DVF_MODE=2"], unwind=3, timeout=300,
                       desc="YR_AC_MAKE_TRANSITION / NEXT_STATE / INVALID_TRANSITION are inverse", bounds="state < 2^23, input code 0..256",
                       functions=["YR_AC_MAKE_TRANSITION", "YR_AC_NEXT_STATE", "YR_AC_INVALID_TRANSITION"]))
+    hs.append(Harness(name="H6_rule_set_wildcard_namespace", src="c05/rule_sets.c", unwind=5, timeout=600, flags=["--object-bits", "10"],
+                      unwind_funcs={"strcmp": 4, "strlen": 4, "strncmp": 4, "hash": 4, "yr_hash": 4, "_yr_hash_table_lookup": 5, "yr_hash_table_create": 6, "main": 5, "strlcpy": 4, "_yr_arena_allocate_memory": 3},
+                      desc="yr_parser_emit_pushes_for_rules: a wildcard rule set only contains rules of the namespace being compiled",
+                      bounds="3 rules, 2 namespaces, identifiers 1..2 chars over {x,y}, any prefix", functions=["yr_parser_emit_pushes_for_rules", "yr_hash_table_lookup_uint32"],
+                      stubs=["yyget_extra"]))
     hs.append(Harness(name="H5_ac_table_growth", src="c05/ac_slot.c", unwind=6, timeout=600, unwind_funcs={"_yr_arena_allocate_memory": 12},
                 desc="_yr_ac_find_suitable_transition_table_slot: for ANY slot the packing heuristic may return, the state's 257 transition entries lie inside the accounted (saved) table size",
                 bounds="tables_size 257..600, slot 0..tables_size", functions=["_yr_ac_find_suitable_transition_table_slot", "yr_arena_allocate_zeroed_memory"], stubs=["yr_bitmask_find_non_colliding_offset -> any offset <= tables_size"]))
